@@ -4,6 +4,7 @@
 
 mod c02;
 mod c09;
+mod c10;
 mod c11;
 mod prog;
 mod rng;
@@ -49,6 +50,7 @@ fn main() {
     match cmd {
         "compile" => c02::main(&args),
         "roles" => c09::main(&args),
+        "prove" => c10::main(&args),
         "alu" => c11::main(&args),
         "alusched" => c11::sched_main(&args),
         "shrink" => c02::shrink_main(&args),
